@@ -69,7 +69,7 @@ func init() {
 			if n := len(m.Sets["vm_panic_variants"]); n > 0 {
 				ev.Notes = append(ev.Notes, fmt.Sprintf("%d (class, field) alterations made the VM panic inside Supervisor.applyBlock on the receiving node (recovered there and turned into a refusal, store unchanged): see table_vm_panic_variants", n))
 			}
-			ev.Notes = append(ev.Notes, fmt.Sprintf("call data: %d non-canonical encodings of the same arguments (%d distinct method/form pairs) were delivered; re-encoded by a relay with hash and signature kept they are accepted and stored as the canonical bytes (ValidateSendBlock repacks before the hash is checked); hashed and signed over the non-canonical bytes by the key holder they are refused (hash mismatch after repacking): see table_call_data", m.Counters["call_data_same_args_variants"], len(m.Sets["call_data_forms"])))
+			ev.Notes = append(ev.Notes, fmt.Sprintf("call data: %d non-canonical encodings of the same arguments (out of %d distinct method/form pairs tried, malformed ones included) were delivered; re-encoded by a relay with hash and signature kept they are accepted and stored as the canonical bytes (ValidateSendBlock repacks before the hash is checked); hashed and signed over the non-canonical bytes by the key holder they are refused (hash mismatch after repacking): see table_call_data", m.Counters["call_data_same_args_variants"], len(m.Sets["call_data_forms"])))
 			ev.Notes = append(ev.Notes, fmt.Sprintf("JSON forms: %d alternative number/string spellings tried on the nom JSON form: %d refused, %d decode to the same block, %d decode to another block whose hash no longer matches (malformed amounts such as \" 5\" or \"0x5\" are silently read as 0 by common.StringToBigInt; for a descendant block this goes unnoticed for the reason reported under the contract-receive key)",
 				m.Counters["json_forms_tried"], m.Counters["json_forms_refused"], m.Counters["json_forms_same_block"], m.Counters["json_forms_other_block_hash_mismatch"]))
 			if m.Incomplete {
